@@ -173,6 +173,11 @@ type Call struct {
 	// exactly these in the call context)
 	sentReq, sentReply interface{}
 	lag                *reqCtx // the call runs under the application's shared request context
+	repick             bool    // FlagRepick
+	pendingRepick      bool
+	released, abandon  bool
+	repickW            kern.Waiter
+	RepickOf           int // the call this pick repeats (-1: a first pick)
 	Chained            bool    // the caller's context derives from an earlier intercepted call's context
 	peekBad            string
 }
@@ -242,6 +247,7 @@ type Sim struct {
 	stop         bool
 	addrSets     [][]resolver.Address
 	nConnErr     int
+	nRepicks     int
 	req          *reqCtx  // the application's current request-scoped context
 	burstBound   []string // keys the concurrent burst certainly bound (enterSerial)
 	addrMaster   []resolver.Address
@@ -379,8 +385,9 @@ func (s *Sim) connState(id int, st connectivity.State) balancer.SubConnState {
 }
 
 // initAddrs: the lists the resolver delivers. 0-2 as ever; 3 three addresses; 4
-// twenty addresses; 5 the last nineteen of them; 6 one address that differs
-// from list 0 in its server name, attributes and (non-comparable) metadata only. With plan.SharedAddrs lists 0-5 are
+// twenty addresses; 5 the last nineteen of them; 6 and 7 lists 1 and 3 in another
+// order; 8 one address that differs from list 0 in its server name, attributes
+// and (non-comparable) metadata only. With plan.SharedAddrs lists 0-5 are
 // windows into one array the resolver owns and keeps (a shorter list has the
 // longer ones in its spare capacity: a library that appends to a list it was
 // given writes into the next one); otherwise every update passes a copy of its
@@ -396,7 +403,7 @@ func (s *Sim) initAddrs() {
 	for i := range m {
 		s.addrMaster[i] = m[i]
 	}
-	s.addrSets = [][]resolver.Address{m[0:1], m[0:2], m[2:3], m[0:3], m[0:20], m[1:20], {{Addr: "a:1", ServerName: "other.example", Attributes: attributes.New("zone", "z1"), BalancerAttributes: attributes.New("w", 3), Metadata: []string{"not", "comparable"}}}}
+	s.addrSets = [][]resolver.Address{m[0:1], m[0:2], m[2:3], m[0:3], m[0:20], m[1:20], {m[1], m[0]}, {m[2], m[0], m[1]}, {{Addr: "a:1", ServerName: "other.example", Attributes: attributes.New("zone", "z1"), BalancerAttributes: attributes.New("w", 3), Metadata: []string{"not", "comparable"}}}}
 	s.addrWin = [][2]int{{0, 1}, {0, 2}, {2, 3}, {0, 3}, {0, 20}, {1, 20}}
 	for _, a := range s.addrSets {
 		s.addrWant = append(s.addrWant, addrsString(a))
@@ -984,6 +991,10 @@ func (s *Sim) lagExpiry(o Op, after bool) {
 
 //go:norace
 func (s *Sim) exec(i int, o Op) {
+	s.repicks(false)
+	if s.stop {
+		return
+	}
 	s.lagExpiry(o, false)
 	defer s.lagExpiry(o, true)
 	env := s.env
@@ -1380,6 +1391,9 @@ func (s *Sim) startCall(i int, o Op) {
 		s.res.Count("keyed_pick_started", 1)
 	}
 	c.tag = &TaskTag{Op: i, Phase: PhPick, Call: c.ID}
+	c.repick = o.F&FlagRepick != 0 && !c.Stream
+	c.RepickOf = -1
+	c.repickW.Note = fmt.Sprintf("call %d waits for a newer picker", c.ID)
 	s.calls = append(s.calls, c)
 	s.k.KeyHint = s.opKey(i, 1)
 	c.task = s.k.Spawn(fmt.Sprintf("call%d", c.ID), 0, c.tag, func() { s.callBody(c) })
@@ -1493,10 +1507,64 @@ func (s *Sim) callBody(c *Call) {
 
 //go:norace
 func (s *Sim) pickAndWait(ctx context.Context, c *Call) error {
-	if err := s.pick(ctx, c); err != nil {
-		return err
+	for {
+		err := s.pick(ctx, c)
+		if err == nil {
+			return s.waitAndComplete(c)
+		}
+		if c.Res.Kind != ResWait || !c.repick || s.healing {
+			return err
+		}
+		// gRPC blocks an RPC that was told to wait until a newer picker exists and
+		// then picks again - with the very same context, interceptor values included
+		c.pendingRepick = true
+		s.k.Wait(&c.repickW)
+		c.pendingRepick = false
+		if c.abandon || ctx.Err() != nil {
+			return err
+		}
+		n := *c
+		n.ID = len(s.calls)
+		n.Age, n.PubIdx = 0, -1
+		n.Res, n.done = PickRes{}, nil
+		n.Invoked, n.Returned, n.Completed, n.InFlight = false, false, false, false
+		n.waiter = kern.Waiter{Note: fmt.Sprintf("call %d in flight", n.ID)}
+		n.repickW = kern.Waiter{Note: fmt.Sprintf("call %d waits for a newer picker", n.ID)}
+		n.peekBad = ""
+		n.RepickOf = c.ID
+		c = &n
+		c.tag.Call = c.ID
+		s.calls = kern.Push(s.calls, c)
+		s.nRepicks++
 	}
-	return s.waitAndComplete(c)
+}
+
+// repicks releases the calls that were told to wait and for which a newer
+// picker has been published since; abandon releases all of them for good.
+//
+//go:norace
+func (s *Sim) repicks(abandon bool) {
+	any := false
+	for _, c := range s.calls {
+		if !c.pendingRepick || c.released {
+			continue
+		}
+		if abandon || len(s.env.Pubs)-1 > c.PubIdx {
+			c.abandon = abandon
+			c.released = true
+			s.k.Set(&c.repickW)
+			any = true
+			if !s.conc {
+				// serial plans: one at a time, each to quiescence
+				s.k.Quiesce()
+				s.afterOp()
+				if s.stop {
+					return
+				}
+			}
+		}
+	}
+	_ = any
 }
 
 // pick performs one Pick on the picker chosen by the plan (latest or stale).
@@ -1655,6 +1723,7 @@ func (s *Sim) heal() {
 	i := len(s.plan.Ops)
 	s.healing = true
 	s.env.FailNew = 0
+	s.repicks(true)
 	s.k.Quiesce()
 	s.afterOp()
 	if s.stop {
@@ -1839,6 +1908,7 @@ func (s *Sim) closePhase() {
 	i := len(s.plan.Ops)
 	s.healing = true
 	s.env.FailNew = 0
+	s.repicks(true)
 	s.k.Quiesce()
 	s.afterOp()
 	if s.stop || len(s.env.Pubs) == 0 {
@@ -2236,6 +2306,7 @@ func (s *Sim) finish() {
 		}
 	}
 	res := s.res
+	res.Count("fault:call_told_to_wait_picked_again_with_the_same_context", s.nRepicks)
 	res.Steps = int(k.Steps())
 	res.SimNanos = int64(k.Elapsed())
 	res.Fingerprint = k.Fingerprint
